@@ -17,8 +17,12 @@ pub mod c10;
 pub mod c11;
 pub mod c12;
 pub mod c13;
+pub mod c14;
 pub mod c15;
 pub mod c16;
+pub mod c17;
+pub mod c18;
+pub mod c19;
 
 pub struct Prop {
     pub id: &'static str,
@@ -46,7 +50,11 @@ pub fn lookup(id: &str) -> Option<Prop> {
         "C11" => p("C11", c11::run, c11::replay),
         "C12" => Prop { needs_model: false, ..p("C12", c12::run, c12::replay) },
         "C13" => Prop { needs_model: false, ..p("C13", c13::run, c13::replay) },
+        "C14" => Prop { needs_model: false, ..p("C14", c14::run, c14::replay) },
         "C15" => p("C15", c15::run, c15::replay),
+        "C17" => Prop { needs_model: false, ..p("C17", c17::run, c17::replay) },
+        "C18" => Prop { needs_model: false, ..p("C18", c18::run, c18::replay) },
+        "C19" => Prop { needs_model: false, level: "fault_enumeration", ..p("C19", c19::run, c19::replay) },
         "C16" => Prop { needs_model: false, ..p("C16", c16::run, c16::replay) },
         _ => return None,
     })
